@@ -598,8 +598,9 @@ def search_case(ctx, rng, tool, idx, corpus, only_valid_inputs=False):
 # Tools in which the exploration of the unchanged tree keeps finding further distinct deaths (long tail of genuine
 # defects, see known_findings.d/C13.json). They are searched with the FIXED streams only (same invocations at every seed,
 # so every death of the unchanged tree is an exactly known witness); the seed-dependent stream covers the other tools.
-FRAGILE = {"esl-histplot", "esl-mixdchlet fit", "esl-mixdchlet score", "esl-mixdchlet gen", "esl-mixdchlet sample",
-           "esl-alimanip", "esl-alimerge", "esl-alimap", "esl-alimask", "esl-compalign", "esl-ssdraw", "easel filter"}
+# tools left out of the seed-dependent stream because every run found another abort of theirs: EMPTY since round 4 (all 16 deaths of
+# esl-histplot / esl-mixdchlet / esl-alimanip / esl-alimask / esl-alimerge / esl-shuffle were repaired in /repo)
+FRAGILE = set()
 
 
 def _tool_rng(tool, stream):
@@ -1135,6 +1136,8 @@ def ref_alistat_exact(rng, i):
     nali = rng.choice([1, 1, 2, 3])
     pfam = rng.random() < 0.3
     want_iinfo = rng.random() < 0.4
+    want_pp = rng.random() < 0.4
+    want_bp = rng.random() < 0.35
     text = ""
     for a in range(nali):
         rows, _ = wide_rows(rng, abc=abc, nseq=rng.choice([1, 2, 3, 6, 9]), alen=rng.choice([1, 2, 7, 30, 61, 130, 205]),
@@ -1151,9 +1154,22 @@ def ref_alistat_exact(rng, i):
             if not any(c in "xX" for c in rf): rf = "x" + rf[1:]
         name = rng.choice([None, "aln%d" % (a + 1), "a_long_alignment_name_%d" % (a + 1)])
         cpl = alen if pfam else rng.choice([alen, 200, 50, 77])
-        t = sto_text_blocks(rows, max(1, cpl), rf=rf, ident=name)
-        if rng.random() < 0.25:
-            t = t.replace("# STOCKHOLM 1.0\n", "# STOCKHOLM 1.0\n" + "".join("#=GS %s WT %s\n" % (n, rng.choice(["1.0", "0.5", "2.25"])) for n, _ in rows), 1)
+        grpp = None
+        if want_pp:      # posterior probability lines: a digit or * under a residue, a gap character under a gap; some sequences without one
+            grpp = {k: "".join(rng.choice(".." if rng.random() < 0.9 else "-_") if c in "-._~" else rng.choice("0123456789*****") for c in s_)
+                    for k, (n, s_) in enumerate(rows) if rng.random() < 0.8}
+            if not grpp: grpp = {0: "".join("." if c in "-._~" else "*" for c in rows[0][1])}
+        sscons = None
+        if want_bp:
+            sscons = balanced_ss(rng, alen)
+            if rng.random() < 0.3 and alen > 6:      # a pseudoknot (letters): removed before the pairs are read
+                free = [c_ for c_ in range(alen) if sscons[c_] in ".:,_-~"]
+                if len(free) >= 2:
+                    x_, y_ = sorted(rng.sample(free, 2)); l_ = list(sscons); l_[x_], l_[y_] = "A", "a"; sscons = "".join(l_)
+        t = sto_text_blocks(rows, max(1, cpl), rf=rf, ident=name, grpp=grpp, sscons=sscons)
+        if rng.random() < 0.4:
+            ws_ = ["1.0", "0.5", "2.25", "0.3333", "1.7", "0.1"] if rng.random() < 0.8 else ["1.0"]
+            t = t.replace("# STOCKHOLM 1.0\n", "# STOCKHOLM 1.0\n" + "".join("#=GS %s WT %s\n" % (n, rng.choice(ws_)) for n, _ in rows), 1)
         text += t
     args = [ABCFLAG[abc], "--informat", "pfam" if pfam else "stockholm"]
     if rng.random() < 0.35: args.append("-1")
@@ -1163,7 +1179,14 @@ def ref_alistat_exact(rng, i):
             args += [opt, f]; cats.append("cat name=" + f)
     if want_iinfo:
         args += ["--iinfo", "i.out"]; cats.append("cat name=i.out")
+    if want_pp:
+        for opt, f in (("--pcinfo", "pc.out"), ("--psinfo", "ps.out")):
+            if rng.random() < 0.7:
+                args += [opt, f]; cats.append("cat name=" + f)
+    if want_bp:
+        args += ["--bpinfo", "bp.out"]; cats.append("cat name=bp.out")
     if rng.random() < 0.3: args.append("--noambig")
+    if rng.random() < 0.35: args.append("--weight")       # weighted counts where an alignment has WT lines that are not all 1.0
     rng.shuffle(cats)
     return {"name": "ref-alistatx-%d" % i, "ref": True, "sticky": 1,
             "ops": [op_file("in.sto", text), op_run("esl-alistat", args + ["in.sto"])] + cats}
@@ -1315,7 +1338,10 @@ def ref_afetch_exact(rng, i):
         cpl = alen if pfam else rng.choice([alen, 200, 200, 50, 77])
         t = sto_text_blocks(rows, max(1, cpl), rf=rf, sscons=ss, desc=({0: "a description"} if rng.random() < 0.3 else None), ident=name)
         if acc: t = t.replace("#=GF ID %s\n" % name, "#=GF ID %s\n#=GF AC %s\n" % (name, acc), 1)
-        if rng.random() < 0.3: t = t.replace("//\n", "  //\n")             # terminator indented, as the parser allows
+        w_ = rng.random()
+        if w_ < 0.3: t = t.replace("//\n", "  //\n")                      # terminator indented, as the parser allows
+        elif w_ < 0.45: t = t.replace("//\n", "// \n")                    # ... or followed by anything: only the prefix "//" counts
+        elif w_ < 0.55: t = t.replace("//\n", "//end of record\n")
         text += t + "\n" * rng.choice([0, 0, 1, 3])
         recs.append((name, acc))
     infmt = "pfam" if pfam else "stockholm"
@@ -1409,7 +1435,10 @@ def ref_compstruct(rng, i):
             if w < 0.05: del tss[k]
             elif w < 0.10: del kss[k]
             elif w < 0.15: trows[k] = (n + "x", s_)
-            elif w < 0.20 and "-" in s_: trows[k] = (n, s_.replace("-", "A", 1))
+            elif w < 0.18 and "-" in s_: trows[k] = (n, s_.replace("-", "A", 1))                 # test sequence one residue longer
+            elif w < 0.20 and alen > 1:                                                       # ... or one residue shorter
+                j_ = next((c_ for c_ in range(alen) if s_[c_] not in "-._~" and tss.get(k, "." * alen)[c_] in ".:,_-~"), None)
+                if j_ is not None: trows[k] = (n, s_[:j_] + "-" + s_[j_ + 1:])
             elif w < 0.25: tss[k] = "<" + tss[k][1:].replace(">", ".", 1) if alen > 1 else tss[k]
             elif w < 0.30: kss[k] = ">" + kss[k][1:]
         if not kss: kss[0] = "." * alen
@@ -1674,7 +1703,7 @@ def balanced_ss(rng, alen, kh=False):
     return "".join(ss)
 
 
-def sto_text_blocks(rows, cpl, rf=None, sscons=None, grss=None, desc=None, ident=None):
+def sto_text_blocks(rows, cpl, rf=None, sscons=None, grss=None, desc=None, ident=None, grpp=None):
     """Stockholm text in blocks of <cpl> columns (cpl >= alen: one block, i.e. Pfam)"""
     alen = len(rows[0][1])
     w = max([len(n) for n, _ in rows] + [12]) + 2
@@ -1689,6 +1718,8 @@ def sto_text_blocks(rows, cpl, rf=None, sscons=None, grss=None, desc=None, ident
             out.append(n.ljust(w) + " " + s_[pos:pos + cpl])
             if grss and k in grss:
                 out.append(("#=GR %s SS" % n).ljust(w) + " " + grss[k][pos:pos + cpl])
+            if grpp and k in grpp:
+                out.append(("#=GR %s PP" % n).ljust(w) + " " + grpp[k][pos:pos + cpl])
         if sscons: out.append("#=GC SS_cons".ljust(w) + " " + sscons[pos:pos + cpl])
         if rf: out.append("#=GC RF".ljust(w) + " " + rf[pos:pos + cpl])
     out.append("//")
@@ -2188,6 +2219,18 @@ REF_GENERATORS = [("multi-alignment files", ref_multi_ali), ("esl-compstruct", r
 
 # witnesses of findings that were repaired in /repo: plain regression cases (name, fixing commit, ops)
 RETIRED_WITNESSES = [
+    ('esl_histplot_exception_esl_minimizer_c_minimum_not_finite', '137d847', ['file name=in0 hex=2d362e363337353820302e3533353035380a2d322e373336303820302e32383736360a332e353238323820302e353432370a2d302e32363730333120302e3730333334340a322e383338373120302e3332393535390a312e313936333320302e3333373530350a2d362e373131313120302e3430373738370a322e313738373820302e3833393732330a2d312e343237313320302e34313333360a342e323731303720302e3236313930340a2d322e393433343320302e3933393339350a2d342e373430393720302e3738313334360a2d332e373631343420302e30303235373030360a302e33313536313820302e3538303231310a2d322e303030343520302e3531383133310a2d302e38313333343120302e3234393534380a2d302e31393738313920302e35343931360a2d302e35393837363120302e3630313935380a2d302e33383330383320302e3533313837360a', 'run tool=esl-histplot args=2d2d676576002d62002d2d6d617800302e3100696e30']),
+    ('esl_histplot_exception_esl_exponential_c_empty_data_vector_p', 'dc0566f', ['file name=in0 hex=31300a322e0a332e310a0a2d302e356d312ebd0a322e320a', 'run tool=esl-histplot args=2d2d6578707461696c002d2d73686f77676576002d2d6d753d302e3900696e30']),
+    ('esl_histplot_exception_esl_histogram_c_value_N_N_isn_t_going', '6797247', ['file name=in0 hex=2d332e393831343320302e3336373332390a2d312e323835303220302e3132373138360a322e363434353320302e3631393436390a332e393132373720302e3731393938370a2d322e3237323220302e3530363630390a302e33373532343420302e3132393530370a2d342e343031353520302e363436363938787878787878787878787878787878787878787878787878787878787878787878787878787878787878787878787878787878787878787878787878787878787878787878780a2d322e303320302e3635383631320a2d302e35323937373520302e3435393038370a302e31353930383920302e3531363536320a2d352e343935393420302e3734363133320a2d302e36373234323720302e3738313032310a2d322e333234303620302e3834373730350a', 'run tool=esl-histplot args=2d2d6e6f726d616c002d62002d2d7375727600696e30']),
+    ('esl_histplot_exception_unchecked_alloc_size', '6797247', ['file name=in0 hex=eb7ab058c76f0197415af91fbe0fb15dabbdcda688634143a30089745f7dab14d39bae97adcac431c6d059458ebc1387f5cb3fb27290bc87a74b99cc949720d66bb5dae6661e0d889c7175c31f4ccfe037d8407fca1b8457da589721fab4d68e42853b64f14b73c3ac17a1215157651f2850c90374b9066578d910389adbfa625557cbc1e6ccb7f4f673d28de7ca90f436dba7aa6f7c3a43df79911a86bed51de36c8876ab1def920eb26a8231099a59b0b9c79c8ccf221bacee933b5e9574fa55d87b9f0dc373ae342eb0eb60fa622a2a8345579c31631e167d42fcefa3f7f4e102788ca8590082bb5dfce8e503eecbb456b8d6085975810159ded44fbe3e2ae65d6640dd3a0a11bee838151cb0fa7a8aa84c9297446e51d46a450e2c8d18e25598be43a7f055b5b543b69cbe438b6ff1775ba17fff2b091c44dd16d88f0f43415b36c465c011b5d62253d6f6ea9b2e033c3fc99b4b6d61de2e7889797924e14a597c02bbf21ad6a3e13a2f4e1ef7994878a03e40b5d04e805a637593775085ebbe9211eabb8f00603836727e8bab41a8a0a4e0a8cc616d12d88b8d2e43adaf364c9c905e53a28e943dac26895572418c6d085c27d49e442ca45094689bcf536823e8141cd7ae06c33720b8c5eb0dcc8d60d5e942f7b2c398294c28d7641c671c064ab8da8041176e4e4707de6500f06141894fde07a0de37a59cac70c3a16d72f68f7575327ade10ef99f88f348376168370e8c8d30c809ca1960a5acb5835d59dd542b71117f42e41c6772e649ae5b6f35c0ed2c08c9ad7493b7c8a0373aa109195a3315b8225e3ce20e07ac7cd6829943f1b56a4a332edf3f6f6001cbf9a7dd9d622feb86e4804f4fed55467012bba296ce3f24256a9a50c37dfd8a6659240ef09d75516c42ee472694af1083120fd4c9812a15f5f326606c754fc02b01219ac072868193cec1361f4af119910ec1e62e958e5854554f6454b83fd3f83ba10fbb26a9cce6b43bf177aa2a2c71dda7b033b1fe44cc11d15a57ff71fc18d510edce51a054dd4ea93dfcf07e7af89608ef304b5cb9bc09e2e0ed9bd2b3eb38f9facf567ffcc266fded9746d082ce9fb6f9e144d8624ac9699b311ba6003dc1ccd729e30673df4d4e9e75f0e090967aeb693d1bfb895cf6701ea4b05e08fc644412df9f9429efd645b9d4c688038461d3032dfe9b9eab8b0d9a9e2d5c2a50ad9df960f690311d4930c95463c168913b0a253896f7fb80dea0409bb271db7a6da9e65c32ce82240ab6ce07fe04be1b76bda41a64983d85bed3dc9902cc6b67ed28c6fa994a794e93f5fe41c5596d4e5ef0c902052449589baf7737fdb49b9864e8363ead7dfad6a956c9ddcee46eca9b098506458e68a8720e7c4fd93af9480e767f9b258de841c91', 'run tool=esl-histplot args=2d2d6d696e3d302e3632002d2d6d6178002d696e6600696e30']),
+    ('esl_histplot_exception_esl_histogram_c_pmass_not_a_probabili', '52da802', ['file name=in0 hex=362e323032343520302e3134303233340a2d312e363538373120302e363235370a362e393430363220302e3236383134370a', 'run tool=esl-histplot args=2d7400322e30002d2d6d7500302e35002d2d73686f77676576002d2d6578707461696c6c6f6300696e30']),
+    ('esl_mixdchlet_fit_exception_esl_stats_c_invalid_x_N_in_esl_s', '8c2a45a', ['file name=in2 hex=31302032203320340a312031203120310a302035203020350a372030', 'run tool=esl-mixdchlet args=666974002d7300320033003400696e32006f75742e39']),
+    ('esl_mixdchlet_fit_exception_unchecked_alloc_size', '8c2a45a', ['file name=in2 hex=31302032203320340a312031203120310a302035203020350a372030203020310a', 'run tool=esl-mixdchlet args=666974002d730033003939393939393939393939003400696e32006f75742e39']),
+    ('esl_mixdchlet_gen_exception_unchecked_alloc_size', '8c2a45a', ['file name=in0 hex=312039393939393939393939340a312e302020302e323520302e323520302e323520302e32350a', 'run tool=esl-mixdchlet args=67656e002d4e0033002d73003100696e30']),
+    ('esl_mixdchlet_sample_exception_unchecked_alloc_size', '8c2a45a', ['run tool=esl-mixdchlet args=73616d706c65002d510032313437343833363437']),
+    ('esl_shuffle_exception_unchecked_alloc_size', 'cfe3f0a', ['run tool=esl-shuffle args=2d47002d4c0032313437343833363437']),
+    ('esl_alimask_exception_unchecked_alloc_size', '0430f3a', ['file name=in0 hex=232053544f434b484f4c4d20312e300a233d474620494420616c6e310a0a0a233d47432053535f636f6e73203c3c3c3c3c3c3c3c3c3c3c3c3c3c2e2e2e2e2e2e2e2e2e2e2e2e2e2e2e2e2ecc2e2e2e2e2e2e2e2e2e2e2e2e2e2e2e2e2e2e2e2e2e2e2e2e2e2e2e2e2e2e2e2e2e2e2e2e2e2e2e2e2e2e2e2e2e2e2e2e2e2e2e2e2e2e3e3e3e3e3e3e3e3e3e3e3e3e3e3e0a2f2f0a5139312020202020202020202047414453522d56544b2d5649572d522d59492d4d5743504749432d594e574949432d2d4b4346594441572d475346485950434d4751574d56482d574c4552595145594e45494948455156534448564c474e5146475650502d56454550565941', 'run tool=esl-alimask args=2d70002d2d736d616c6c002d2d616d696e6f002d stdin=232053544f434b484f4c4d20312e300a233d474620494420616c6e310a0a0a233d47432053535f636f6e73203c3c3c3c3c3c3c3c3c3c3c3c3c3c2e2e2e2e2e2e2e2e2e2e2e2e2e2e2e2e2ecc2e2e2e2e2e2e2e2e2e2e2e2e2e2e2e2e2e2e2e2e2e2e2e2e2e2e2e2e2e2e2e2e2e2e2e2e2e2e2e2e2e2e2e2e2e2e2e2e2e2e2e2e2e2e3e3e3e3e3e3e3e3e3e3e3e3e3e3e0a2f2f0a5139312020202020202020202047414453522d56544b2d5649572d522d59492d4d5743504749432d594e574949432d2d4b4346594441572d475346485950434d4751574d56482d574c4552595145594e45494948455156534448564c474e5146475650502d56454550565941']),
+    ('esl_alimanip_exception_unchecked_alloc_size', 'fc7c80b', ['file name=in0 hex=232053544f434b484f4c4d20312e300a0a70726f7431202020202020202020202d474743432d414354432d2d542d2d2d2d2d432d2d2d432d2d47542d2d472d2d2d2d2d47472d47414754472d41412d2d412d2d2d414754412d2d2d0a233d4743205246202020202020202078787878787878787878787878782e7878787878787878782e7878787878787878787878782e78787878782e787878782e78782e2e2e78787878780a233d47432053535f636f6e732020203c3c3c3c3c3c3c3c3c2e2e2e2e2e2e2e2e2e2e2e2e2e2e2e2e2e2e2e2e2e2e2e2e2e2e2e2e2e2e2e2e2e2e2e2e2e2e2e2e2e3e3e3e3e3e3e3e3e3e0a2f2f0a232053544f434b484f4c4d20312e300a233d474620494420616c6e320a0a70726f7431202020202020202020202055470a70726f7432202020202020202020202055410a7333202020202020202020202020202041430a785f793420202020202020202020202047430a5139352020202020202020202020202055470a5139362020202020202020202020202047410a7337202020202020202020202020202047430a785f793820202020202020202020202047430a6e7c6d3920202020202020202020202055550a70726f7431302020202020202020202041430a2f2f0a', 'run tool=esl-alimanip args=2d2d74726565006f75742e30002d2d646e6100696e30']),
     ('esl_alimerge_asan_heap_buffer_overflow_determine_gap_columns', '5e1f0af', ['file name=m0 hex=0a233d43530a233d52460a736571312041434445464748494b4c4d4e50515253545657590a6c6f6e675f6e616d65204748494b4c4d4e50515253545657590a626c616e6b5f7365715f616c6c5f67617073200a736571322041434445462d2d2d4b4c4d4e50515253545657590a736571332041434445462e2e2e4b4c4d4e50515253545657590a2320656d62656464656420636f6d6d656e7473206f6b0a736571342041434445464748494b4c4d4e50515253545657590a207365713520434445464748494b4c4d4e50515253545657590a233d5353200a233d53410a0a0a0a233d43530a233d52460a736571312041434445464748494b4c4d4e50515253545657590a6c6f6e675f6e616d65204748494b4c4d4e50515253545657590a626c616e6b5f7365715f616c6c5f67617073200a736571322041434445464748494b4c4d4e50515253545657590a736571332041434445464748494b4c4d4e50515253545657590a736571342041434445464748494b4c4d4e50515253545657590a736571352041434445464748494b4c4d4e50515253545657590a233d5353200a233d5341', 'file name=in0 hex=6d300a', 'run tool=esl-alimerge args=2d2d6c69737400696e30']),
     ('esl_histplot_asan_heap_buffer_overflow_esl_vec_DSet', '7d2bcba', ['file name=in0 hex=31300a322e350a332e310a322e', 'run tool=esl-histplot args=2d2d73686f77657870002d2d6d617800302e31002d62002d2d6d7500322e3000696e30']),
     ('esl_histplot_asan_heap_buffer_overflow_esl_histogram_PlotSur', 'e843eeb', ['file name=in0 hex=-', 'run tool=esl-histplot args=2d2d7375727600696e30']),
